@@ -6,3 +6,4 @@ def build(run):
     PA.itermesh_next(run)
     PA.init_mesh_args(run)
     PA.qpoints_ownership(run)
+    PA.band_connection_pairing(run)
